@@ -323,11 +323,7 @@ class PeerSim(Sim):
 
     def eut_writes(self):
         """Frames written by the EUT: [(evno, cid, fdict, frame)] (refframer view)."""
-        out = []
-        for (ev, cid, data, dropped) in self.writes.get("E", []):
-            for fr in refframer.scan_frames(data):
-                out.append((ev, cid, refframer.fdict(fr), fr, dropped))
-        return out
+        return self.frames_written("E")
 
     def logged_on(self):
         return self.eut.connection_state == ACTIVE
